@@ -169,7 +169,7 @@ def mask_class(toks):
 def export(d, conv):
     if conv == "lod":
         return d.to_list_of_dicts()
-    if conv in ("json", "json_dtypes"):
+    if conv in ("json", "json_dtypes", "json_dtypes1"):
         return d.to_json()
     if conv == "pandas":
         return d.to_pandas()
@@ -185,6 +185,9 @@ def import_(mid, conv, temporal_dtypes):
         return di.DataFrame.from_json(mid)
     if conv == "json_dtypes":
         return di.DataFrame.from_json(mid, dtypes=dict(temporal_dtypes))
+    if conv == "json_dtypes1":
+        # a dtype for the LAST column only (the order of the columns is not the order of the dtype map)
+        return di.DataFrame.from_json(mid, dtypes=dict(temporal_dtypes[-1:]))
     if conv == "pandas":
         return di.DataFrame.from_pandas(mid)
     if conv == "arrow":
@@ -210,7 +213,7 @@ def read_intermediate(mid, conv, names, nrow):
         nulls = {name: [item[name] is None for item in mid] for name in names}
         digest = tuple(tuple(V.tok(item[name]) for name in names) for item in mid)
         return digest, nulls
-    if conv in ("json", "json_dtypes"):
+    if conv in ("json", "json_dtypes", "json_dtypes1"):
         if not isinstance(mid, str):
             raise _Bad("intermediate-type", f"to_json returned {type(mid).__name__}")
         consts = []
@@ -371,6 +374,8 @@ def observe(ctx, conv):
 def convs_for(cols):
     convs = list(CONVS)
     convs.insert(2, "json_dtypes")
+    if len(cols) >= 2 and not any(fam in UNITS for name, fam, toks in cols[:-1]):
+        convs.insert(3, "json_dtypes1")
     return convs
 
 
